@@ -91,6 +91,29 @@ def rleRt (hdr : Bool) (xs : List Nat) : String :=
   if xs.isEmpty then base
   else if hdr then s!"{base} gc={xs.length}" else s!"{base} grc={runs}"
 
+/-- `rle.cap`: a hostile run list (any lengths) + end marker, decoded with capacity `cap` -/
+def rleCap (t : Array String) : String :=
+  let cap := parseHex ((kw t "cap").getD "0")
+  let hdr := (kw t "hdr").getD "0" ≠ "0"
+  let total := parseHex ((kw t "total").getD "0")
+  let toks := (t.toList.drop 1).filter fun s => !s.contains '='
+  let rec pairs : List String → List (Nat × Nat)
+    | a :: b :: r => (parseHex a, parseHex b) :: pairs r
+    | _ => []
+  let body := RLE.encRuns (pairs toks) ++ List.replicate 32 0
+  let res : Option (List Nat) :=
+    if hdr then (match RLE.decH (Tagged.enc total ++ body) cap with
+      | some (some xs) => some xs
+      | some none => some []
+      | none => none)
+    else RLE.dec body cap
+  match res with
+  | none => "n=fault"
+  | some xs =>
+    let shown := " ".intercalate ((xs.take 12).map hex)
+    let base := if xs.isEmpty then "n=0 v=" else s!"n={xs.length} v= {shown} last={hex (xs.getLastD 0)}"
+    base
+
 def eliasRt (dl : Bool) (xs0 : List Nat) : String :=
   let xs := xs0.map fun x => if x = 0 then 1 else x
   let b := if dl then Elias.encDelta xs else Elias.encGamma xs
@@ -128,6 +151,7 @@ def arrayOp (t : Array String) : Option String :=
   | "dict.rt" => some (dictRt (xs ()))
   | "rle.rt" => some (rleRt false (xs ()))
   | "rleh.rt" => some (rleRt true (xs ()))
+  | "rle.cap" => some (rleCap t)
   | "egamma.rt" => some (eliasRt false (xs ()))
   | "edelta.rt" => some (eliasRt true (xs ()))
   | "bp32.rt" => some (bpRt false false (xs ()))
